@@ -220,3 +220,27 @@ rtt!(roundtrip_no_issuance, 0);
 rtt!(roundtrip_explicit_issuance, 1);
 rtt!(roundtrip_blinded_issuance, 2);
 // end
+
+
+//@ prop=C08 tier=quick secp=1 mem=10 timeout=1200 desc="pset::Input::asset_issuance() (what extract_tx puts into the transaction) reflects the issuance fields the same way for the amount and for the inflation keys: commitment if present, else explicit amount, else null; nonce and entropy copied"
+#[kani::proof]
+#[kani::unwind(70)]
+pub fn issuance_view_reflects_fields() {
+    let mut inp = Input::default();
+    let (a, k): (Option<u64>, Option<u64>) = (kani::any(), kani::any());
+    let (ac, kc): (bool, bool) = (kani::any(), kani::any());
+    let comm = crate::util::genuine_value_commitment(false).commitment().unwrap();
+    inp.issuance_value_amount = a;
+    inp.issuance_inflation_keys = k;
+    inp.issuance_value_comm = if ac { Some(comm) } else { None };
+    inp.issuance_inflation_keys_comm = if kc { Some(comm) } else { None };
+    let entropy: [u8; 32] = kani::any();
+    inp.issuance_asset_entropy = Some(entropy);
+    let iss = inp.asset_issuance();
+    let want = |explicit: Option<u64>, has_comm: bool| if has_comm { Value::Confidential(comm) } else { explicit.map_or(Value::Null, Value::Explicit) };
+    assert!(iss.amount == want(a, ac), "issuance amount: commitment, else explicit, else null");
+    assert!(iss.inflation_keys == want(k, kc), "inflation keys: commitment, else explicit, else null (same rule as the amount)");
+    assert!(eq32(&iss.asset_entropy, &entropy));
+    kani::cover!(kc && k.is_some(), "both explicit and committed inflation keys present");
+    core::mem::forget(inp);
+}
